@@ -9,6 +9,7 @@ package kmip
 //@   recv p
 //@   results op
 //@   pure
+//@   functional
 
 //@ func NewRequestMessage
 //@   requires len(payloads) <= 2147483647 && (forall k int :: 0 <= k && k < len(payloads) ==> payloads[k] != nil)
